@@ -1,11 +1,22 @@
 #!/bin/bash
-# seedrun_overlay.sh <seed-id> <property> [tier]: like seedrun.sh but without touching /repo: the files the
-# patch changes are copied, patched and injected with go -overlay (VERIF_OVERLAY).
+# seedrun_overlay.sh <seed-id> <property> [tier]: run a check against a seeded change without touching /repo.
+# The files the patch changes are taken at the commit the seed was made against (meta.json base_commit, default
+# 49b9765), patched, three-way merged with /repo's current version (later fix: commits must stay in), and
+# injected with go -overlay (VERIF_OVERLAY).
 ID=$1; PROP=$2; TIER=${3:-quick}
-D=/verif/.work/seedov/$ID; rm -rf $D; mkdir -p $D/tree
+D=/verif/.work/seedov/$ID; rm -rf $D; mkdir -p $D/base $D/tree
+BASE=$(python3 -c "import json;print(json.load(open('/verif/seeded/$ID/meta.json')).get('base_commit','49b9765'))" 2>/dev/null || echo 49b9765)
 FILES=$(grep '^+++ b/' /verif/seeded/$ID/patch.diff | sed 's#^+++ b/##')
-for f in $FILES; do mkdir -p $D/tree/$(dirname $f); cp /repo/$f $D/tree/$f; done
+for f in $FILES; do
+  mkdir -p $D/base/$(dirname $f) $D/tree/$(dirname $f)
+  git -C /repo show $BASE:$f > $D/base/$f || exit 2
+  cp $D/base/$f $D/tree/$f
+done
 (cd $D/tree && patch -s -p1 < /verif/seeded/$ID/patch.diff) || exit 2
+for f in $FILES; do
+  cp /repo/$f $D/cur.tmp
+  if git merge-file -p $D/cur.tmp $D/base/$f $D/tree/$f > $D/merged.tmp 2>/dev/null; then cp $D/merged.tmp $D/tree/$f; else echo "merge conflict in $f: using base+seed"; fi
+done
 python3 - "$D" $FILES > $D/overlay.json <<'PY'
 import json,sys
 d=sys.argv[1]
